@@ -30,6 +30,7 @@ type evalEnv struct {
 	dry        bool
 	macroDepth int
 	loop       *loopInfo // the loop whose invariant / variant is being evaluated (binds rangeindex / rangelen)
+	outer      *evalEnv  // inside a pred expansion: the environment of the clause that uses the pred (witness candidates)
 }
 
 func (e *evalEnv) with(cur *state) *evalEnv {
@@ -216,8 +217,12 @@ func (g *fnGen) eval(e SExpr, env *evalEnv) (string, types.Type, error) {
 					}
 				}
 			}
+			wenv := env
+			if env.outer != nil {
+				wenv = env.outer // a pred body sees no locals; its witnesses come from the clause that uses it
+			}
 			for _, cn := range cands {
-				cv, ct, err := g.evalIdent(cn, env)
+				cv, ct, err := g.evalIdent(cn, wenv)
 				if err != nil || ct == nil {
 					continue
 				}
@@ -1110,6 +1115,11 @@ func (g *fnGen) evalCall(x *SCall, env *evalEnv) (string, types.Type, error) {
 			return "", nil, fmt.Errorf("pred %s: expansion too deep", gf.Name)
 		}
 		ne.names = nil
+		if env.outer != nil {
+			ne.outer = env.outer
+		} else {
+			ne.outer = env
+		}
 		saveMode := ne.mode
 		ne.mode = "callee" // only bound names and package scope are visible inside a pred
 		t, ty, err := g.eval(gf.Def, &ne)
